@@ -3,7 +3,7 @@
     sumbool, sumor; no Extract Constant).  N / Z / nat stay the extracted inductive datatypes. *)
 From Coq Require Extraction.
 From Coq Require Import ExtrOcamlBasic.
-From HC Require Import Base.HBytes Model.Tlv8 Model.Storage Model.Framing Model.ConnRead.
+From HC Require Import Base.HBytes Model.Tlv8 Model.Storage Model.Framing Model.ConnRead Model.ConnWrite.
 Extraction Language OCaml.
 Set Extraction KeepSingleton.
 Separate Extraction
@@ -13,4 +13,5 @@ Separate Extraction
   Storage.db_list Storage.fs_get Storage.multi_ops Storage.apply_ops Storage.set_ops Storage.sanitize
   Framing.new_server_session Framing.new_client_session Framing.send_all Framing.recv_all
   Framing.decrypt_stream Framing.decrypt_segments Framing.cc_open Framing.cc_seal Framing.packets_pinned
-  ConnRead.run_reads ConnRead.init_conn.
+  ConnRead.run_reads ConnRead.init_conn
+  ConnWrite.wrun HBytes.chunks.
